@@ -30,6 +30,62 @@ def _parse_log(text):
     return out
 
 
+def _components(n, indices, indptr):
+    p = list(range(n))
+
+    def find(x):
+        while p[x] != x:
+            p[x] = p[p[x]]
+            x = p[x]
+        return x
+    for i in range(n):
+        for e in range(indptr[i], indptr[i + 1]):
+            x, y = find(i), find(int(indices[e]))
+            if x != y:
+                p[x] = y
+    return [find(x) for x in range(n)]
+
+
+class _RefineCapture:
+    """Wraps leiden.optimize_refine_core from outside (no repository change): records every answer of the
+    refinement kernel (libc rand() makes it unrepeatable) and checks the contract the theorems assume."""
+
+    def __init__(self):
+        import sknetwork.clustering.leiden as mod
+        self.mod = mod
+        self.orig = mod.optimize_refine_core
+        self.answers = []
+        self.contract_ok = True
+        self.why = None
+
+    def __enter__(self):
+        def wrapper(labels, labels_refined, indices, indptr, *rest):
+            coarse = np.asarray(labels).copy()
+            ind = np.asarray(indices).copy()
+            ptr = np.asarray(indptr).copy()
+            out = self.orig(labels, labels_refined, indices, indptr, *rest)
+            refined = np.asarray(out).tolist()
+            n = len(coarse)
+            self.answers.append(refined)
+            if len(refined) != n:
+                self.contract_ok, self.why = False, 'length'
+            else:
+                comp = _components(n, ind, ptr)
+                first = {}
+                for x, r in enumerate(refined):
+                    y = first.setdefault(r, x)
+                    if coarse[y] != coarse[x]:
+                        self.contract_ok, self.why = False, 'refined cluster %d spans coarse clusters' % r
+                    if comp[y] != comp[x]:
+                        self.contract_ok, self.why = False, 'refined cluster %d spans components' % r
+            return out
+        self.mod.optimize_refine_core = wrapper
+        return self
+
+    def __exit__(self, *a):
+        self.mod.optimize_refine_core = self.orig
+
+
 def optimiser(a):
     """a: algo ('louvain'|'leiden'), m, force_bipartite, and the estimator's keyword arguments."""
     m = mk_matrix(a['m'])
@@ -40,12 +96,21 @@ def optimiser(a):
               sort_clusters=a.get('sort_clusters', True), random_state=a.get('random_state', None),
               return_probs=False, return_aggregate=False, verbose=bool(a.get('verbose', False)))
     algo = cls(**kw)
-    algo.fit(m, force_bipartite=a.get('force_bipartite', False))
+    cap = None
+    if a['algo'] == 'leiden':
+        with _RefineCapture() as cap:
+            algo.fit(m, force_bipartite=a.get('force_bipartite', False))
+    else:
+        algo.fit(m, force_bipartite=a.get('force_bipartite', False))
     res = {'labels': tolist(algo.labels_), 'bipartite': bool(algo.bipartite), 'log': _parse_log(algo.log),
            'raw_log': algo.log}
     if algo.bipartite:
         res['labels_row'] = tolist(algo.labels_row_)
         res['labels_col'] = tolist(algo.labels_col_)
+    if cap is not None:
+        res['refine_answers'] = cap.answers
+        res['refine_contract_ok'] = cap.contract_ok
+        res['refine_contract_why'] = cap.why
     if a.get('shuffle_nodes', False) and a.get('want_index', False):
         # the permutation the estimator drew: a fresh generator with the same seed draws the same one
         rs = np.random.RandomState(a['random_state'])
